@@ -324,8 +324,19 @@ func (f *Frame) invoke(i *ssa.Call, c *ssa.CallCommon, recv Val, args []Val, rea
 		cands = append(cands, cand{t, fn})
 	}
 	if len(cands) == 0 {
-		f.vc.assumed = append(f.vc.assumed, fmt.Sprintf("interface call %s.%s has no known implementation: result unconstrained", typeKey(c.Value.Type()), c.Method.Name()))
-		return f.freshVal("invoke", i.Type(), h), reach
+		// an interface of a dependency: an assumed contract "<iface>.<Method>" may describe the
+		// method as a pure function of the receiver ("self") and the arguments ("arg0", ...)
+		key := typeKey(c.Value.Type()) + "." + c.Method.Name()
+		res := f.freshVal("invoke", i.Type(), h)
+		if ct := f.en.cs.Funcs[key]; ct != nil && ct.Trusted {
+			ctx := &SpecCtx{f: f, fn: f.fn, params: f.params, heap: h, old: h, binds: map[string]Val{"self": recv}, result: &res, pkg: pkgOf(f.fn), callArgs: args}
+			for _, en := range ct.Ensures {
+				f.vc.assume(implies(reach, ctx.evalBool(en.E)))
+			}
+			return res, reach
+		}
+		f.vc.assumed = append(f.vc.assumed, fmt.Sprintf("interface call %s has no known implementation: result unconstrained", key))
+		return res, reach
 	}
 	var conds []string
 	var heaps []*Heap
